@@ -607,7 +607,11 @@ class _LayoutAdapter:
         nchw_shape = tuple(aval_shape[p] for p in _NHWC_TO_NCHW_PERM)
         nchw_input_val = ir.Value(
             name=f"in_{index}_nchw",
-            type=ir.TensorType(_to_ir_dtype_from_np(np.dtype(var.aval.dtype))),
+            # Same element-type policy as a plain graph input (add_input_for_invar):
+            # float16 stays float16, floats follow the double-precision flag.
+            type=ir.TensorType(
+                _dtype_to_ir(np.dtype(var.aval.dtype), self.enable_double_precision)
+            ),
             shape=_to_ir_shape(nchw_shape),
         )
         self.ctx.add_graph_input_value(nchw_input_val)
